@@ -34,7 +34,7 @@ Lemma lookup_embed en x m v v' : all_scalar en -> lookup x en = Some (m, v) -> e
 Proof.
   intros Hs. induction Hs as [|[y [my w]] r Hw Hr IH]; simpl; [discriminate|].
   intros HL HE. simpl in Hw.
-  destruct w as [z|b| |s]; try discriminate Hw; simpl; rewrite vname_eqb;
+  destruct w as [z|b| |s|l]; try discriminate Hw; simpl; rewrite vname_eqb;
     destruct (N.eqb x y); try (apply IH; assumption);
     inversion HL; subst; simpl in HE; inversion HE; reflexivity.
 Qed.
@@ -55,23 +55,23 @@ Variable fns : list fn.
 Lemma bridge_ref e : forall en v, exact_eval en e = Some v ->
   forall fuel out, (esize e < fuel)%nat -> eval_expr fns fuel [] en e out = Ok v out.
 Proof.
-  induction e as [z|b|s|x|o a IHa|o a IHa b IHb|f args|c IHc a IHa b IHb]; intros en v H fuel out Hf;
+  induction e as [z|b|s|x|o a IHa|o a IHa b IHb|f args|c IHc a IHa b IHb|es|a0 IHa0 i0 IHi0|a0 IHa0]; intros en v H fuel out Hf;
     (destruct fuel as [|fuel]; [simpl in Hf; lia|]); cbn [eval_expr]; cbn [exact_eval] in H; cbn [esize] in Hf.
   - apply chk_some in H. destruct H as [-> _]. reflexivity.
   - inversion H; reflexivity.
   - discriminate.
-  - destruct (lookup x en) as [[m w]|]; [|discriminate]. destruct w as [z|b| |s]; try discriminate.
+  - destruct (lookup x en) as [[m w]|]; [|discriminate]. destruct w as [z|b| |s|l]; try discriminate.
     + apply chk_some in H. destruct H as [-> _]. reflexivity.
     + inversion H; reflexivity.
   - destruct o.
-    + destruct (exact_eval en a) as [[x| | |]|] eqn:E; try discriminate.
+    + destruct (exact_eval en a) as [[x| | | |]|] eqn:E; try discriminate.
       rewrite (IHa en _ E) by lia. cbn. apply chk_some in H. destruct H as [-> Hr]. rewrite wrap_in by exact Hr. reflexivity.
-    + destruct (exact_eval en a) as [[|bb| |]|] eqn:E; try discriminate.
+    + destruct (exact_eval en a) as [[|bb| | |]|] eqn:E; try discriminate.
       rewrite (IHa en _ E) by lia. cbn. inversion H; reflexivity.
   - destruct (exact_eval en a) as [va|] eqn:Ea; [|discriminate].
     destruct (exact_eval en b) as [vb|] eqn:Eb; [|destruct va; discriminate].
     pose proof (IHa en _ Ea fuel out ltac:(lia)) as Ra. pose proof (fun o' => IHb en _ Eb fuel o' ltac:(lia)) as Rb.
-    destruct va as [x|x| |]; destruct vb as [y|y| |]; try discriminate;
+    destruct va as [x|x| | |]; destruct vb as [y|y| | |]; try discriminate;
       destruct o; try discriminate; cbn iota; rewrite Ra; cbn [bind]; try rewrite Rb; cbn [bind of_opres eval_binop value_eqb];
       try (apply chk_some in H; destruct H as [-> Hr]; rewrite wrap_in by exact Hr; reflexivity);
       try (inversion H; subst; try reflexivity).
@@ -90,8 +90,11 @@ Proof.
     + (* and on bools: reference short-circuits *) destruct x, y; try rewrite Rb; reflexivity.
     + destruct x, y; try rewrite Rb; reflexivity.
   - discriminate.
-  - destruct (exact_eval en c) as [[|[|]| |]|] eqn:Ec; try discriminate;
+  - destruct (exact_eval en c) as [[|[|]| | |]|] eqn:Ec; try discriminate;
       rewrite (IHc en _ Ec) by lia; cbn [bind]; [apply IHa|apply IHb]; try assumption; lia.
+  - discriminate.
+  - discriminate.
+  - discriminate.
 Qed.
 End Ref.
 
@@ -100,7 +103,7 @@ Lemma bridge_nc e : forall en v v', all_scalar en -> exact_eval en e = Some v ->
   forall ne, embed_expr e = Some ne ->
   forall fuel, (esize e < fuel)%nat -> NV.NanoCore.EvalFn.eval_fn fuel (embed_env en) ne = Some (embed_env en, v').
 Proof.
-  induction e as [z|b|s|x|o a IHa|o a IHa b IHb|f args|c IHc a IHa b IHb]; intros en v v' Hs H Hv ne Hn fuel Hf;
+  induction e as [z|b|s|x|o a IHa|o a IHa b IHb|f args|c IHc a IHa b IHb|es|a0 IHa0 i0 IHi0|a0 IHa0]; intros en v v' Hs H Hv ne Hn fuel Hf;
     (destruct fuel as [|fuel]; [simpl in Hf; lia|]); cbn [exact_eval] in H; cbn [embed_expr] in Hn; cbn [esize] in Hf.
   - apply chk_some in H. destruct H as [-> _]. inversion Hn; subst. inversion Hv; subst. reflexivity.
   - inversion H; subst. inversion Hn; subst. inversion Hv; subst. reflexivity.
@@ -108,22 +111,22 @@ Proof.
   - inversion Hn; subst. cbn [NV.NanoCore.EvalFn.eval_fn].
     destruct (lookup x en) as [[m w]|] eqn:L; [|discriminate].
     assert (Hw : exists w', embed_val w = Some w' /\ w' = v').
-    { destruct w as [z|b| |s]; try discriminate.
+    { destruct w as [z|b| |s|l]; try discriminate.
       - apply chk_some in H. destruct H as [-> _]. eexists; split; [reflexivity|]. inversion Hv; reflexivity.
       - inversion H; subst. eexists; split; [reflexivity|]. inversion Hv; reflexivity. }
     destruct Hw as [w' [Hw1 ->]]. rewrite (lookup_embed en x m w v' Hs L Hw1). reflexivity.
   - destruct o; destruct (embed_expr a) as [a'|] eqn:Ea'; try discriminate; inversion Hn; subst; cbn [NV.NanoCore.EvalFn.eval_fn].
-    + destruct (exact_eval en a) as [[x| | |]|] eqn:E; try discriminate.
+    + destruct (exact_eval en a) as [[x| | | |]|] eqn:E; try discriminate.
       rewrite (IHa en _ (NV.NanoCore.Syntax.VInt x) Hs E eq_refl a' eq_refl) by lia.
       apply chk_some in H. destruct H as [-> _]. inversion Hv; reflexivity.
-    + destruct (exact_eval en a) as [[|bb| |]|] eqn:E; try discriminate.
+    + destruct (exact_eval en a) as [[|bb| | |]|] eqn:E; try discriminate.
       rewrite (IHa en _ (NV.NanoCore.Syntax.VBool bb) Hs E eq_refl a' eq_refl) by lia.
       inversion H; subst. inversion Hv; reflexivity.
   - destruct (embed_expr a) as [a'|] eqn:Ea'; [|discriminate]. destruct (embed_expr b) as [b'|] eqn:Eb'; [|discriminate].
     inversion Hn; subst. cbn [NV.NanoCore.EvalFn.eval_fn].
     destruct (exact_eval en a) as [va|] eqn:Ea; [|discriminate].
     destruct (exact_eval en b) as [vb|] eqn:Eb; [|destruct va; discriminate].
-    destruct va as [x|x| |]; destruct vb as [y|y| |]; try discriminate.
+    destruct va as [x|x| | |]; destruct vb as [y|y| | |]; try discriminate.
     + rewrite (IHa en _ (NV.NanoCore.Syntax.VInt x) Hs Ea eq_refl a' eq_refl) by lia.
       rewrite (IHb en _ (NV.NanoCore.Syntax.VInt y) Hs Eb eq_refl b' eq_refl) by lia.
       destruct o; cbn; try discriminate;
@@ -141,9 +144,12 @@ Proof.
   - discriminate.
   - destruct (embed_expr c) as [c'|] eqn:Ec'; [|discriminate]. destruct (embed_expr a) as [a'|] eqn:Ea'; [|discriminate].
     destruct (embed_expr b) as [b'|] eqn:Eb'; [|discriminate]. inversion Hn; subst. cbn [NV.NanoCore.EvalFn.eval_fn].
-    destruct (exact_eval en c) as [[|[|]| |]|] eqn:Ec; try discriminate.
+    destruct (exact_eval en c) as [[|[|]| | |]|] eqn:Ec; try discriminate.
     + rewrite (IHc en _ (NV.NanoCore.Syntax.VBool true) Hs Ec eq_refl c' eq_refl) by lia. apply (IHa en v v' Hs H Hv a' eq_refl). lia.
     + rewrite (IHc en _ (NV.NanoCore.Syntax.VBool false) Hs Ec eq_refl c' eq_refl) by lia. apply (IHb en v v' Hs H Hv b' eq_refl). lia.
+  - discriminate.
+  - discriminate.
+  - discriminate.
 Qed.
 
 (* the bridge: inside the common domain the language definition and the repository's proved semantics agree *)
